@@ -22,6 +22,7 @@ let () =
   let actors = ref [] (* (name, (id, kind)) in declaration order *) in
   let st = ref None in
   let watches = ref [] (* model watch ids in registration order; -1 = static closed channel *) in
+  let eager = ref [] (* indexes of actors forced into a held lock *) in
   let get_st () = match !st with
     | Some s -> s
     | None -> let s = init_st (nat_of_int !ntab) (List.map snd !actors) in st := Some s; s in
@@ -34,7 +35,7 @@ let () =
   read_lines_iter (fun line ->
     match split_ws line with
     | [] -> ()
-    | "#case" :: _ -> print_endline line; ntab := 0; actors := []; st := None; watches := []
+    | "#case" :: _ -> print_endline line; ntab := 0; actors := []; st := None; watches := []; eager := []
     | ["tables"; n] -> ntab := int_of_string n; print_endline "ok"
     | ["actor"; name; "w"; tabs; writes; ca; reg; dn] ->
       let id = n_of_int (List.length !actors + 1) in
@@ -56,13 +57,40 @@ let () =
                     | _ -> watches := !watches @ [-1]);
                    print_endline (obs s)
        | None -> print_endline "n/a")
+    | ["force"; name] ->
+      (* the actor is released into a held lock: it will take its lock step as soon as the lock is free *)
+      let s = get_st () in
+      let i = index_of name in
+      let awaited j = let a = List.nth s.s_actors j in
+        (match a.a_pc with
+         | PLocking k -> (match List.nth_opt a.a_locks (int_of_nat k) with Some t -> "t" ^ string_of_int (int_of_nat t) | None -> "")
+         | PCommitIdx | PRegBefore -> "root"
+         | _ -> "") in
+      if i < 0 || enabled s (nat_of_int i) || List.mem i !eager || awaited i = ""
+         || List.exists (fun j -> awaited j = awaited i) !eager
+      then print_endline ("n/a " ^ obs s)
+      else begin eager := !eager @ [i]; Printf.printf "forced:%s %s\n" name (obs s) end
     | ["step"; name] ->
       let s = get_st () in
       let i = index_of name in
-      if i < 0 || not (enabled s (nat_of_int i)) then print_endline ("n/a " ^ obs s)
+      if i < 0 || List.mem i !eager || not (enabled s (nat_of_int i)) then print_endline ("n/a " ^ obs s)
       else begin
         let s' = step s (nat_of_int i) in
-        st := Some s';
+        (* forced actors proceed as soon as their lock is free, in declaration order *)
+        let suffix = ref "" in
+        let cur = ref s' in
+        let continue = ref true in
+        while !continue do
+          (match List.find_opt (fun j -> enabled !cur (nat_of_int j)) (List.sort compare !eager) with
+           | Some j -> cur := step !cur (nat_of_int j);
+                       eager := List.filter (fun x -> x <> j) !eager;
+                       let aj = List.nth !cur.s_actors j in
+                       suffix := !suffix ^ Printf.sprintf " +%s:%s" (fst (List.nth !actors j)) (pc_s aj.a_pc)
+           | None -> continue := false)
+        done;
+        let obs_now = obs !cur in
+        let s' = s' in
+        st := Some !cur;
         let a = List.nth s'.s_actors i in
         let extra = match a.a_pc, a.a_kind with
           | (PCommitIdx | PAbortBefore), KWriter _ ->
@@ -70,6 +98,6 @@ let () =
             " view=[" ^ vers_s (take !ntab a.a_entries) ^ "]"
           | PDone, KWriter (_, _, true, _, _) -> " ret=[" ^ vers_s a.a_entries ^ "]"
           | _ -> "" in
-        Printf.printf "%s:%s %s%s\n" name (pc_s a.a_pc) (obs s') extra
+        Printf.printf "%s:%s %s%s%s\n" name (pc_s a.a_pc) obs_now extra !suffix
       end
     | _ -> Printf.printf "E unknown op: %s\n" line)
